@@ -256,9 +256,18 @@ def run(ctx, lean_ok):
         full_lines, full_exp = [], []
         for k in range(neos):
             n = r.randint(1, 6)
+            # a quarter of the cases repeat the state (T, P) and the size of the case before with another mixture: whatever
+            # one back end remembers between calls under an incomplete key shows as a disagreement with the other
+            again = k > 0 and r.random() < 0.25
+            if again:
+                n = prev_state[2]
             fm, d = mixgen.mixture(r, nmin=n, nmax=n)
             m = mixgen.masses(r, n)
             T, P = mixgen.state(r)
+            if again:
+                T, P = prev_state[:2]
+                ctx.count('eos:state-repeated')
+            prev_state = (T, P, n)
             e = mixgen.eos_args(fm)
             # the library routines take delta as given (dbm.FluidMixture stores a user table unchanged): half of the
             # constant-delta cases hand over a NON-symmetric table (upper-triangular as typed in from a PVT report, or
